@@ -104,11 +104,12 @@ theorem type_numeric_text (ext : Ext) (s : Str) (h : ¬ Spec.IsMarker s) :
   rfl
 
 /-- numeric column, native numbers are taken as they are (booleans are the integers 0 / 1) -/
-theorem type_numeric_native (ext : Ext) (t : Str) (i : Int) (ft : Str) (b : Bool) :
+theorem type_numeric_native (ext : Ext) (t : Str) (i : Int) (ft : Str) (b : Bool)
+    (hft : ft ≠ overflowTok) :
     floatCell ext (.float t) = some t ∧ floatCell ext (.int i ft) = some ft ∧
     floatCell ext (.bool b) = some (if b then "1.0".toList else "0.0".toList) ∧
     (∀ d, floatCell ext (.dt d) = none) ∧ (∀ o, floatCell ext (.other o) = none) := by
-  simp [floatCell]
+  simp [floatCell, hft]
 
 /-- **nothing else is silently turned into a missing number**: a missing numeric value comes from an
     empty native cell, a NaN already in the native cell, a marker, or `float()` itself answering NaN -/
@@ -123,7 +124,11 @@ theorem numeric_missing_only_from (ext : Ext) (c : Cell) (h : floatCell ext c = 
     by_cases hm : Spec.IsMarker s
     · exact Or.inl hm
     · right; rw [← type_numeric_text ext s hm]; exact h
-  | int i t => simp [floatCell] at h; simp [h]
+  | int i t =>
+    simp only [floatCell] at h
+    split at h
+    · cases h
+    · simp at h; simp [h]
   | float t => simp [floatCell] at h; simp [h]
   | bool b => cases b <;> simp [floatCell, NaN] at h <;> exact absurd h (by decide)
   | dt t => simp [floatCell] at h
